@@ -156,6 +156,9 @@ func c08run(r *kernel.Run, seed uint64, controlled bool) {
 	}
 
 	if controlled {
+		// every goroutine started so far (store listeners, pipeline loops) runs to its first real wait before the
+		// scheduler takes over: otherwise whether it meets the scheduler at its very first point is a real-time race
+		s.wait()
 		sc = sched.New(r.Choose, r.Choose(3), func(f string, a ...any) { r.Logf(f, a...); r.Step() })
 	}
 	// run lets the system react: in the controlled tier the scheduler releases pipeline goroutines one at a
